@@ -6,6 +6,7 @@ import (
 	"encoding/hex"
 	"fmt"
 	"strings"
+	"sync"
 
 	"github.com/theQRL/go-qrllib/common"
 	"github.com/theQRL/go-qrllib/dilithium"
@@ -107,6 +108,22 @@ func genC10(g *gen) {
 	rt(bytes.Repeat([]byte{0xff}, 51), true)
 	rt(g.bytes(3), true)
 	rt(g.bytes(6), true)
+	// every word repeated over the whole phrase (32 and 34 times): the shortest and the longest phrases there are
+	for v := 0; v < 4096; v++ {
+		for _, n := range []int{48, 51} {
+			b := make([]byte, n)
+			for i := 0; i+3 <= n; i += 3 {
+				b[i], b[i+1], b[i+2] = byte(v>>4), byte(v<<4)|byte(v>>8), byte(v)
+			}
+			ph := misc.VerifBinToMnemonic(b)
+			dec := "m.dec48"
+			if n == 51 {
+				dec = "m.dec51"
+			}
+			out := execOp(g.st, dec+" "+hx([]byte(ph)))
+			g.check(out == "ok "+hx(b), "roundtrip", fmt.Sprintf("dec(enc(b)) != b for the %d-byte input made of the 12-bit group %d repeated (phrase of %d characters): %s", n, v, len(ph), trunc(out, 60)), "m.enc "+hx(b), dec+" "+hx([]byte(ph)))
+		}
+	}
 	g.note("every 12-bit value at word positions %v", positions)
 	for _, pos := range positions {
 		seen := map[string]int{}
@@ -601,6 +618,29 @@ func genC16(g *gen) {
 // ---------------------------------------------------------------- C09
 
 func genC09(g *gen) {
+	// the recovered key must sign like the original on every message, also on those whose signing takes dozens of
+	// rejection rounds (boundary corpus of the zero-seed key) — twice each, since signing is deterministic
+	{
+		var zseed [48]byte
+		d0, _ := dilithium.NewDilithiumFromSeed(zseed)
+		dm, _ := dilithium.NewDilithiumFromMnemonic(d0.GetMnemonic())
+		dh, _ := dilithium.NewDilithiumFromHexSeed(d0.GetHexSeed()[2:])
+		var ms [][]byte
+		for _, k := range []string{"many-attempts", "attempts-ge-45", "attempts-ge-50", "nonce-ge-256", "hint-75"} {
+			ms = append(ms, loadCorpus(k)[k]...)
+		}
+		var cmu sync.Mutex
+		parallel(len(ms), func(i int) {
+			s0, _ := d0.Sign(ms[i])
+			s1, _ := dm.Sign(ms[i])
+			s2, _ := dh.Sign(ms[i])
+			s3, _ := d0.Sign(ms[i])
+			cmu.Lock()
+			g.check(s0 == s1 && s0 == s2 && s0 == s3, "dil-recovered-signature", "a Dilithium key recovered from its mnemonic / hex seed (or the same key asked twice) signs a message differently: msg="+hx(ms[i]),
+				"dl.new z "+hx(zseed[:]), "dl.sign z "+hx(ms[i]))
+			cmu.Unlock()
+		})
+	}
 	g.note("descriptor level: every height and hash function")
 	for h := 2; h <= 30; h += 2 {
 		for hf := 0; hf < 3; hf++ {
